@@ -132,7 +132,12 @@ def check(tier, seed):
     t0 = time.time()
     scratch = explore.make_scratch('c06')
     try:
-        n, bad, classes, lines = function_half(scratch)
+        # in a child process: the function half patches bert_e modules (constant message rendering, stub host);
+        # the shared system exploration below forks its workers from THIS process and must see pristine modules
+        # (a cold-cache C06 run used to hand C10.fresh / C19.events a contaminated exploration: false alarms)
+        import multiprocessing as mp
+        with mp.get_context('fork').Pool(1) as pool:
+            n, bad, classes, lines = pool.apply(function_half, (scratch,))
     finally:
         shutil.rmtree(scratch, ignore_errors=True)
     rdir = os.path.join(explore.VERIF, 'replays')
